@@ -22,23 +22,23 @@ namespace Brc20
 open Node
 
 /-- the fields of the EVM environment that the model compares -/
-def sharedFields : List String := ["number", "basefee", "gasprice", "value", "coinbase"]
+def sharedFields : List String := ["number", "basefee", "gasprice", "value", "coinbase", "blockgaslimit"]
 
-/-- A simulation and the next transaction see the same block number, fees, value and coinbase. -/
+/-- A simulation and the next transaction see the same block number, fees, value, coinbase and block gas limit. -/
 theorem C17.env_sim_eq_env_tx (n : Node) (sim tx : List (String × String)) (ts : Nat) (hash : String)
     (hs : n.simEnvOk sim = true) (ht : envOk tx n.nextHeight ts hash none = true) :
     ∀ k ∈ sharedFields, field sim k = field tx k := by
   intro k hk
   simp only [simEnvOk, envOk, Bool.and_eq_true, beq_iff_eq] at hs ht
   simp only [sharedFields, List.mem_cons, List.mem_nil_iff, or_false] at hk
-  rcases hk with rfl | rfl | rfl | rfl | rfl <;> simp_all
+  rcases hk with rfl | rfl | rfl | rfl | rfl | rfl <;> simp_all
 
 /-- The simulation runs with the caller's current account nonce - the nonce the engine gives the next inscription
 transaction of that sender - so nonce-derived child addresses coincide. -/
 theorem C17.sim_uses_account_nonce (n : Node) (sim : List (String × String)) (hs : n.simEnvOk sim = true) :
     field sim "nonce" = toString (n.accountNonce (field sim "caller")) := by
   simp only [simEnvOk, Bool.and_eq_true, beq_iff_eq] at hs
-  exact hs.1.1.1.1.2
+  exact hs.1.1.1.1.1.2
 
 /-- Simulations never change the node (they are reads, C10), so the transaction that follows starts from the state
 the simulation saw. -/
@@ -102,7 +102,7 @@ theorem C17.accepted_round_env (n : Node) (ncalls : Nat) (runs : List (List (Str
     · rw [hn]; simp [List.map_take]
   have := hacc _ hmem
   simp only [simMultiEnvOk, Bool.and_eq_true, beq_iff_eq] at this
-  obtain ⟨⟨⟨⟨⟨h1, h2⟩, h3⟩, h4⟩, h5⟩, _⟩ := this
+  obtain ⟨⟨⟨⟨⟨⟨h1, h2⟩, h3⟩, h4⟩, h5⟩, _⟩, _⟩ := this
   exact ⟨h1, h3, h4, h5, h2⟩
 
 /-- A read whose recorded multi-call runs do not fit is refused by the model (this is what ties the statement above
